@@ -7,7 +7,7 @@ for S in ${@:-$(ls seeded)}; do
   D=seeded/$S; [ -f $D/patch.diff ] || continue
   P=$(python3 -c "import json;print(json.load(open('$D/meta.json'))['property'])")
   PREV=$(python3 -c "import json;print(' '.join(json.load(open('$D/meta.json'))['detected_by']))")
-  CHECKS=$(echo "$P $PREV" | tr ' ' '\n' | sort -u | tr '\n' ' ')
+  CHECKS=$(echo "$P $PREV ${EXTRA:-}" | tr ' ' '\n' | sort -u | tr '\n' ' ')
   git -C /repo apply /verif/$D/patch.diff || { echo "$S: patch does not apply"; continue; }
   line="$S:"
   for c in $CHECKS; do
